@@ -171,9 +171,21 @@ def run_history(args):
                 inner = objs[o].change_detector if spec_of[o][0] == "anomaliser" else objs[o]
                 scorers[cost_of[o]] = getattr(inner, spec_of[o][1])
                 got = "ok"
+            elif op == "deepcopy":
+                objs[obj] = copy.deepcopy(objs[obj])
+                cost_of[obj] = "c1" if obj == "d1" else "c2"
+                inner = objs[obj].change_detector if spec_of[obj][0] == "anomaliser" else objs[obj]
+                scorers[cost_of[obj]] = getattr(inner, spec_of[obj][1])
+                got = "ok"
             elif op == "fit":
                 objs[obj].fit(data[arg])
                 got = "ok"
+            elif op == "fit_predict":
+                got = canon(objs[obj].fit_predict(data[arg]))
+            elif op == "fit_transform":
+                got = canon(objs[obj].fit_transform(data[arg]))
+            elif op == "update_predict":
+                got = canon(objs[obj].update_predict(data[arg]))
             elif op == "update":
                 objs[obj].update(data[arg])
                 got = "ok"
@@ -203,7 +215,7 @@ def run_history(args):
                 want = expected(term)
             except Exception as e:
                 want = ("raises", type(e).__name__)
-        if op in ("fit", "update") and isinstance(got, tuple) and got[0] == "raises":
+        if op in ("fit", "update", "fit_predict", "fit_transform", "update_predict") and isinstance(got, tuple) and got[0] == "raises" and got != want:
             # fit/update on data the detector legitimately rejects: the fresh object must reject it too
             spec = spec_of[obj]
             try:
@@ -220,7 +232,7 @@ def run_history(args):
             break  # e.g. a detector without transform_scores: the model assumed a normal return; stop here
         # hyper-parameters change only through set_params / clone; inputs are never modified
         for d in objs:
-            if op in ("set_params", "clone") and d in (obj, arg):
+            if op in ("set_params", "clone", "deepcopy") and d in (obj, arg):
                 continue
             if repr(objs[d].get_params(deep=True)) != params_before[d]:
                 fails.append(("hyper_parameters_modified", {**where, "detector": d}))
@@ -237,7 +249,7 @@ def _chunk(jobs):
 
 def run(tier: str) -> int:
     chk = Check(PROP, tier)
-    chk.rule = ("stage A: all histories up to MaxLen over an alphabet of ~50 calls (2 detectors x {set_params x2, clone, "
+    chk.rule = ("stage A: all histories up to MaxLen over an alphabet of ~70 calls (2 detectors x {set_params x2, clone, deepcopy, fit_predict/fit_transform/update_predict x4 datasets, "
                 "fit/update x4 datasets, predict/transform/transform_scores x4 datasets} + scorer fit/evaluate), shared or "
                 "private scorer object, fit tuning none/one/both; stage B: histories of length 3 (a seeded slice, all in "
                 "thorough) and sampled longer ones, each executed on the compatible detector pairs out of 6 "
@@ -255,7 +267,7 @@ def run(tier: str) -> int:
             cs = dict(MaxLen=maxlen, Sharing=sharing, Tunes=tunes, Leak="none", Emit=False, NSlices=1, Slice=0, EmitLen=3)
             stages.model_check(chk, "Lifecycle", cs, ["NoLeak", "UpdateIsRefit"], properties=["ParamsStable"], wd=wd,
                                label=f"A:{sharing}-{tunes}-len{maxlen}")
-            nsl = 64 if tier == "quick" else 8
+            nsl = 160 if tier == "quick" else 16
             sl = [chk.seed % nsl, (chk.seed + 7) % nsl] if tier == "quick" else None
             cs3 = dict(cs, MaxLen=3)
             got = stages.emit_cases(chk, "Lifecycle", cs3, wd=wd, label=f"B:{sharing}-{tunes}-len3", invariants=("EmitHist",),
@@ -279,7 +291,8 @@ def run(tier: str) -> int:
             for chunk, ress in zip(chunks, ex.map(_chunk, chunks)):
                 for (case, pi), (fails, steps) in zip(chunk, ress):
                     ops = [s["op"] for s in case["hist"]]
-                    nontrivial = any(o in ("predict", "transform", "transform_scores", "scorer_evaluate") for o in ops[1:])
+                    nontrivial = any(o in ("predict", "transform", "transform_scores", "scorer_evaluate", "fit_predict", "fit_transform",
+                                           "update_predict") for o in ops[1:])
                     chk.case({"sharing": case["sharing"], "tunes": case["tunes"], "pair": pairs()[pi]["name"],
                               "hist": [[s["op"], s["obj"], s["arg"]] for s in case["hist"]]}, nontrivial=nontrivial,
                              key=sha([case, pi]))
